@@ -151,7 +151,7 @@ impl<'a> Gen<'a> {
             p
         }
     }
-    fn typ(&mut self, d: u32) -> String {
+    pub fn typ(&mut self, d: u32) -> String {
         match self.rng.below(if d == 0 { 3 } else { 8 }) {
             0 => "Int".into(),
             1 => "String".into(),
